@@ -287,6 +287,9 @@ def h_mask_many(ae, R, C, usefrac, nsrc):
             def sky2pix_ellipse(self, pos, a, b, pa):
                 self.k += 1
                 return ells[self.k - 1]
+
+            def sky2pix(self, pos):
+                return list(ells[min(self.k, len(ells) - 1)][:2])
         srcs = [Src(k) for k in range(nsrc)]
         for k, s_ in enumerate(srcs):
             s_.peak_flux = 2.0 + k
@@ -373,7 +376,7 @@ def replay_case(w):
 
 CANNED = [dict(R=40, C=40, xo=20.3, yo=21.1, sx=8.0, sy=2.0, th=t) for t in (0.0, 45.0, 80.0, 90.0, -75.0, 135.0)] + \
          [dict(R=40, C=40, xo=20.3, yo=21.1, sx=2.0, sy=8.0, th=t) for t in (0.0, 10.0, 90.0)] + \
-         [dict(R=30, C=20, xo=1.2, yo=10.0, sx=4.0, sy=3.0, th=30.0), dict(R=30, C=20, xo=29.9, yo=19.8, sx=4.0, sy=3.0, th=-20.0),
+         [dict(R=30, C=30, xo=14.2, yo=16.1, sx=5.0, sy=3.0, th=25.0, peak=-0.8), dict(R=30, C=20, xo=1.2, yo=10.0, sx=4.0, sy=3.0, th=30.0), dict(R=30, C=20, xo=29.9, yo=19.8, sx=4.0, sy=3.0, th=-20.0),
           dict(R=20, C=30, xo=10.0, yo=0.7, sx=6.0, sy=2.0, th=60.0)]
 
 
@@ -387,15 +390,19 @@ def replay_pixel(pr):
     class H:
         def sky2pix_ellipse(self, pos, a, b, pa):
             return pr['xo'], pr['yo'], pr['sx'], pr['sy'], pr['th']
+
+        def sky2pix(self, pos):
+            return [pr['xo'], pr['yo']]
     src = models.ComponentSource()
-    src.ra, src.dec, src.peak_flux, src.a, src.b, src.pa, src.local_rms = 10.0, -20.0, 2.0, 60.0, 45.0, 0.0, 0.1
+    pk = float(pr.get('peak', 2.0))
+    src.ra, src.dec, src.peak_flux, src.a, src.b, src.pa, src.local_rms = 10.0, -20.0, pk, 60.0, 45.0, 0.0, 0.1
     try:
         m = real_np.array(ae.make_model([src], (R, C), H()), dtype=float)
     except Exception as e:
         return True, 'raises-%s' % type(e).__name__, 'make_model raised %r for pixel ellipse %s' % (e, pr)
     on = 0.5 <= pr['xo'] < R + 0.5 and 0.5 <= pr['yo'] < C + 0.5
-    want = gauss_oracle((R, C), pr['xo'] - 1, pr['yo'] - 1, pr['sx'], pr['sy'], pr['th'], 2.0) if on else real_np.zeros((R, C))
-    err = float(real_np.abs(m - want).max()) / 2.0
+    want = gauss_oracle((R, C), pr['xo'] - 1, pr['yo'] - 1, pr['sx'], pr['sy'], pr['th'], pk) if on else real_np.zeros((R, C))
+    err = float(real_np.abs(m - want).max()) / abs(pk)
     if err > 1e-4:
         return True, 'model-differs', 'pixel ellipse centre (%.3f, %.3f) FWHM (%.3f, %.3f) px angle %.2f deg on a %dx%d image: model differs from the Gaussian by %.3g of the peak' % (pr['xo'], pr['yo'], pr['sx'], pr['sy'], pr['th'], R, C, err)
     return False, None, None
@@ -410,7 +417,14 @@ def params_of_model(m, R, C):
         co = [k for k in m if k.startswith('c_') and 'TH0' in k]
         si = [k for k in m if k.startswith('s_') and 'TH0' in k]
         th = math.degrees(math.atan2(f(si[0]), f(co[0]))) if co and si else f('TH0')
-        return dict(R=R, C=C, xo=f('XO0'), yo=f('YO0'), sx=f('SX0'), sy=f('SY0'), th=th)
+        pr_ = dict(R=R, C=C, xo=f('XO0'), yo=f('YO0'), sx=f('SX0'), sy=f('SY0'), th=th)
+        try:
+            pk_ = f('peak0')
+            if pk_ != 0:
+                pr_['peak'] = pk_
+        except Exception:
+            pass
+        return pr_
     except Exception:
         return None
 
@@ -433,6 +447,9 @@ def replay_mask():
             class H:
                 def sky2pix_ellipse(self, pos, a, b, pa):
                     return ells[int(round(pos[0] - 10.0))]
+
+                def sky2pix(self, pos):
+                    return list(ells[int(round(pos[0] - 10.0))][:2])
             m = real_np.array(ae.make_model(srcs, (R, C), H(), mask=True, **kw), dtype=float)
             want = real_np.zeros((R, C), dtype=bool)
             for k in order:
